@@ -8,15 +8,23 @@ MANIFEST_TEXT = ("Lean 4 theorems for ALL operation histories and all set sizes 
                  "ParallelIndexSet/GlobalLookupIndexSet that transcribes the GROUND/RESIZE state machine with its checks, endResize "
                  "(sort + the three-way merge dropping DELETED entries), the int binary search of exists/at/operator[] (with fuel), "
                  "renumberLocal, seqNo and the reverse table: ground contents = pairs added and not deleted, strictly ascending "
-                 "iteration, exists/at/operator[] exact, search terminates, seqNo counts completed resizes, renumbering = position, "
-                 "reverse lookup inverts, wrong-state calls rejected without effect.  Each run executes the real class (chunk sizes "
-                 "1,2,3,100, checks enabled) and the model on thousands of random histories and compares every observation; a "
-                 "std::multimap oracle replaying the history decides the property itself.")
-MANIFEST_NOTE = ("Trusted: Lean kernel (+propext/Classical.choice/Quot.sound), the hand-written model's fidelity (checked by "
-                 "differential execution only), the harness/driver parsing and printing, g++/ASan/UBSan. The chunked ArrayList is "
-                 "abstracted to a sequence (property C11); std::sort is modelled by insertion sort (theorem sort_unique: the sorted "
-                 "list is unique for distinct keys); int overflow of seqNo_/uint32 wrap of renumberLocal are not modelled.")
-TECHNIQUE = "Lean 4 proof over a transcribed state-machine/merge/binary-search model + differential correspondence with std::multimap oracle"
+                 "iteration, exists/at/operator[] exact (also stated against the history's specification), search terminates and "
+                 "stays inside 32-bit int for up to 2^30 entries, seqNo counts completed resizes, renumbering = position, reverse "
+                 "lookup inverts (established by renumberLocal), wrong-state calls rejected without effect.  A translator re-reads "
+                 "indexset.hh/plocalindex.hh on every run (seven state checks, scalar effects, sort/merge comparison, DELETED "
+                 "tests, the skeletons of all five copies of the binary search) and 13 theorems prove the model equal to these "
+                 "regenerated pieces.  Each run executes the real class (chunk sizes 0,1,2,3,4,5,8,100 with ParallelLocalIndex/long, "
+                 "1,15,25 with LocalIndex/int, checks enabled) and the model on thousands of random histories and compares every "
+                 "observation; a std::multimap oracle replaying the history decides the property itself.")
+MANIFEST_NOTE = ("Trusted: Lean kernel (+propext/Classical.choice/Quot.sound), the hand-written model's fidelity for the parts not "
+                 "regenerated (control flow of merge(), renumberLocal, GlobalLookupIndexSet constructors: differential execution "
+                 "only), tools/translators/tr_c03.py (pieces it cannot parse fall back to the canonical form and are listed in "
+                 "Gen.unparsed), the harness/driver parsing and printing, g++/ASan/UBSan. The chunked ArrayList is abstracted to a "
+                 "sequence (property C11); std::sort is modelled by insertion sort (theorem sort_unique: the sorted list is unique "
+                 "for distinct keys); int overflow of seqNo_/uint32 wrap of renumberLocal are not modelled; sets of more than 2^30 "
+                 "entries are outside search_int32_safe.")
+TECHNIQUE = ("Lean 4 proof over a transcribed state-machine/merge/binary-search model + source translator with matches_source "
+             "theorems + differential correspondence with std::multimap oracle")
 TRANSLATORS = [tr_c03.translate]
 HARNESS = dict(
     sources=["cxx_c03.cc"],
@@ -26,18 +34,26 @@ HARNESS = dict(
     flags=["-UNDEBUG", "-g1"],
     libs=[],
 )
-RULE = ("case = one whole history `<N> : op;op;...` for chunk size N in {1,2,3,100}: 1-5 resize phases over a global range of width "
-        "1-12 (about 3% long histories of 90-230 adds per phase to cross chunks of N=100), adds and deletions interleaved in random "
-        "order, phases adding 0/1/N+-1 entries, deleting none/all/all-but-one, re-adding deleted globals, 15% histories with equal "
-        "globals under different attributes, one third with wrong-state calls; lookups aim at stored keys and their neighbours. "
-        "distinct = distinct history lines; non-trivial = at least two ops and inside the property's quantifier")
+RULE = ("case = one whole history `<CFG> : op;op;...`; CFG = chunk size N in {0,1,2,3,4,5,8,100} (ParallelLocalIndex, long globals) or "
+        "NL with N in {1,15,25} (LocalIndex, int globals): 1-5 resize phases over a global range of width 1-12 (about 3% long "
+        "histories of 90-230 adds per phase to cross chunks of N=100; 1/8 with global indices from the ends of the value range of "
+        "long/int), adds and deletions interleaved in random order, phases adding 0/1/N+-1 entries, deleting none/all/all-but-one, "
+        "entries marked twice, re-adding deleted globals, 15% histories with equal globals under different attributes, one third "
+        "with wrong-state calls; lookups (all five overloads, writes through operator[] and setLocal, reverse tables also inside a "
+        "resize phase) aim at stored keys, the first/last key and their neighbours. Plus a rotating slice (thorough: all 15552) of "
+        "the exhaustive family of two-phase histories over 4 globals. distinct = distinct history lines; non-trivial = at least two "
+        "ops and inside the property's quantifier")
 ASSUMPTIONS = [
-    "the Lean model lean/DuneVerif/Model/C03.lean is hand-written; its fidelity to indexset.hh rests on this differential run",
+    "the Lean model lean/DuneVerif/Model/C03.lean is hand-written; the pieces listed in Props/C03.lean section 'the tie to the source' "
+    "are proved equal to definitions regenerated from indexset.hh/plocalindex.hh on every run, the rest rests on this differential run",
     "localIndices_/newIndices_ are abstract sequences: ArrayList = its sequence is property C11",
     "std::sort is modelled as insertion sort; histories closing a phase with two equal (global, attribute) keys are outside the quantifier",
+    "the translator compares the sort/merge comparison with its canonical form only on assignments inside the quantifier "
+    "(strict comparator, no two equal keys)",
     "fixes/C03_lookup_single_entry.patch is applied to the tree under test",
 ]
-TRUSTED = ["g++/libstdc++, ASan/UBSan", "harness/cxx_c03.cc (incl. the std::multimap oracle) + Driver/C03.lean parsing/printing"]
+TRUSTED = ["g++/libstdc++, ASan/UBSan", "harness/cxx_c03.cc (incl. the std::multimap oracle) + Driver/C03.lean parsing/printing",
+           "tools/translators/tr_c03.py + Model/C03Expr.lean/C03Src.lean (meaning of the regenerated pieces)"]
 
 
 def _seed(seed, i):
